@@ -1,0 +1,90 @@
+//go:build verif
+// +build verif
+
+// Verification hook (property C15, the party while round0 is still checking the proposal): builds the
+// SignParty in round0 with header, previous header and group already set but canProcessed still false
+// (checkBlock has announced the block hash and not yet finished - the window in which verify messages
+// handed to the party are stored as future messages), lets the harness flip canProcessed exactly as
+// the last statement of checkBlock does, and exposes the party's message-id bookkeeping.  The storing
+// (CanAccept/StoreMessage), the advance into round1 (NextRound/Start with the replay) and everything
+// after are the node's own code.  Add-only; compiled only with -tags verif (needs notify.BUS).
+package logical
+
+import (
+	"sort"
+	"sync"
+
+	"com.tuntun.rangers/node/src/consensus/model"
+	"com.tuntun.rangers/node/src/consensus/net"
+)
+
+// VerifR1NewWaiting is VerifR1New without the step into round1: the party's round is round0.
+func VerifR1NewWaiting(cfg VerifR1Config) *VerifR1 {
+	lg := &VerifR1Logger{}
+	ch := &verifR1Chain{exists: cfg.BlockExists, addedCh: make(chan struct{}, 16)}
+	var ns net.NetworkServer
+	if cfg.Net != nil {
+		ns = cfg.Net
+	}
+	party := &SignParty{blockchain: ch, mi: cfg.Self, netServer: ns,
+		baseParty: baseParty{
+			logger:         lg,
+			mtx:            sync.Mutex{},
+			futureMessages: make(map[string]model.ConsensusMessage),
+			Done:           make(chan byte, 1),
+			Err:            make(chan error, 1),
+			id:             cfg.BH.Hash.String(),
+			started:        true,
+		},
+	}
+	party.ChangedId = make(chan string, 1)
+	r0 := party.FirstRound().(*round0)
+	r0.Start()
+	r0.bh, r0.preBH, r0.group = cfg.BH, cfg.PreBH, cfg.Group
+	r0.partyId = cfg.BH.Hash.String()
+	party.rnd = r0
+	return &VerifR1{party: party, r0: r0, chain: ch, Log: lg}
+}
+
+// R0Ready is the last statement of round0.checkBlock: the round may be left.
+func (v *VerifR1) R0Ready() {
+	v.party.lock()
+	v.r0.canProcessed = true
+	v.party.unlock()
+}
+
+// Bind makes the accessors of VerifR1 look at the round1 the party has advanced into (if it has).
+func (v *VerifR1) Bind() bool {
+	switch r := v.party.round().(type) {
+	case *round1:
+		v.r1 = r
+	case *round2:
+		v.r1 = r.round1
+	}
+	return v.r1 != nil
+}
+
+// StoredIDs / ProcessedIDs: the ids CanAccept refuses.
+func (v *VerifR1) StoredIDs() []string {
+	v.party.lock()
+	defer v.party.unlock()
+	r := make([]string, 0)
+	for k := range v.party.futureMessages {
+		r = append(r, k)
+	}
+	sort.Strings(r)
+	return r
+}
+
+func (v *VerifR1) ProcessedIDs() []string {
+	v.party.lock()
+	defer v.party.unlock()
+	r := make([]string, 0)
+	if v.r0 != nil {
+		for k := range v.r0.processed {
+			r = append(r, k)
+		}
+	}
+	sort.Strings(r)
+	return r
+}
